@@ -1,6 +1,6 @@
 #!/bin/bash
 # usage: confirm_mut.sh <ID> <k> : confirms a seeded defect in a scratch worktree and stores it under /verif/seeded/<ID>-<k>/
-id=$1; k=$2; src=/tmp/mut/out/$id/$k; wt=/tmp/mut/confirm_$id_$k
+id=$1; k=$2; src=/tmp/mut/out/$id/$k; wt=/tmp/mut/confirm_${id}_$k
 export GOFLAGS=-mod=mod GOPROXY=off GOSUMDB=off
 p=$src/patch.diff; [ -f $src/patch.ported.diff ] && p=$src/patch.ported.diff
 meta=$src/meta.json
